@@ -306,7 +306,7 @@ func knownGapByRule(schema *ast.Schema, sv verdict, q string) string {
 			}
 		case "ValuesOfCorrectType":
 			// null item of a [T!] list literal that is nested inside an input-object literal
-			if strings.Contains(e.Message, "found null") && regexp.MustCompile(`\{[^{}]*\[[^\]]*\bnull\b[^\]]*\]`).MatchString(q) {
+			if strings.Contains(e.Message, "found null") && nullItemInListInsideObject(q) {
 				g = "C04-null-item-in-nested-list-literal"
 			}
 		case "KnownArgumentNames":
@@ -356,6 +356,71 @@ func suspectArgumentConflict(q string) bool {
 		}
 	}
 	for _, o := range doc.Operations {
+		walk(o.SelectionSet)
+	}
+	for _, f := range doc.Fragments {
+		walk(f.SelectionSet)
+	}
+	return found
+}
+
+// nullItemInListInsideObject reports whether some list literal with a null item sits inside an
+// input-object literal (arguments, variable defaults, directive arguments; any depth).
+func nullItemInListInsideObject(q string) bool {
+	doc, err := parser.ParseQuery(&ast.Source{Input: q})
+	if err != nil {
+		return false
+	}
+	found := false
+	var val func(v *ast.Value, inObject bool)
+	val = func(v *ast.Value, inObject bool) {
+		if v == nil {
+			return
+		}
+		switch v.Kind {
+		case ast.ListValue:
+			for _, c := range v.Children {
+				if c.Value != nil && c.Value.Kind == ast.NullValue && inObject {
+					found = true
+				}
+				val(c.Value, inObject)
+			}
+		case ast.ObjectValue:
+			for _, c := range v.Children {
+				val(c.Value, true)
+			}
+		}
+	}
+	dirs := func(ds ast.DirectiveList) {
+		for _, d := range ds {
+			for _, a := range d.Arguments {
+				val(a.Value, false)
+			}
+		}
+	}
+	var walk func(set ast.SelectionSet)
+	walk = func(set ast.SelectionSet) {
+		for _, s := range set {
+			switch x := s.(type) {
+			case *ast.Field:
+				for _, a := range x.Arguments {
+					val(a.Value, false)
+				}
+				dirs(x.Directives)
+				walk(x.SelectionSet)
+			case *ast.InlineFragment:
+				dirs(x.Directives)
+				walk(x.SelectionSet)
+			case *ast.FragmentSpread:
+				dirs(x.Directives)
+			}
+		}
+	}
+	for _, o := range doc.Operations {
+		for _, vd := range o.VariableDefinitions {
+			val(vd.DefaultValue, false)
+		}
+		dirs(o.Directives)
 		walk(o.SelectionSet)
 	}
 	for _, f := range doc.Fragments {
